@@ -559,7 +559,7 @@ def _type_pair_chunk(args):
                   extra = mem[j] - mem[i]
                   # the leniency the property excludes: a fixed-length tuple accepts tuple[E, ...] when E is
                   # acceptable to the union of its members (pyanalyze/test_value.py::test_sequence_value asserts it)
-                  if extra and a[0] == "tuple" and b[0] == "tuple*":
+                  if extra and a[0] in ("tuple", "tupv") and b[0] == "tuple*":
                       lenient += 1
                       continue
                   note(f"{family}::acceptance implies inclusion of the members", bool(extra), {**d, "objects_only_in_actual": [repr(objects[k]) for k in sorted(extra)][:3]})
@@ -572,10 +572,10 @@ def r04_k(prog: Program, chk: Check) -> None:
 
     chk.rule(
         "R04.k",
-        "type-to-type assignability of container types as a finite model (the container model of R03.f): for every pair of the 111 types (list / set / frozenset / Sequence / "
-        "Iterable / tuple[X, ...] / fixed tuples / dict / Mapping over 7 element types, nested containers, unions) and of 180 TypedDicts (21 dict objects), whenever the expected type accepts the actual one, every object "
+        "type-to-type assignability of container types as a finite model (the container model of R03.f): for every pair of the 123 types (list / set / frozenset / Sequence / "
+        "Iterable / tuple[X, ...] / fixed tuples / tuples with one unpacked member / dict / Mapping over 7 element types, nested containers, unions) and of 180 TypedDicts (21 dict objects), whenever the expected type accepts the actual one, every object "
         "of the universe that belongs to the actual type belongs to the expected one; every type accepts itself; no pair raises. The one documented leniency (a "
-        "fixed-length tuple accepts tuple[E, ...]) is counted, not reported",
+        "tuple type with single members accepts tuple[E, ...]) is counted, not reported",
         floor=3,
     )
     selftest = bool(_os.environ.get("VERIF_SELFTEST"))
